@@ -94,44 +94,5 @@ pub(crate) mod kani_tab {
         row_facts(420, 477);
         assert!(SYSTEMATIC_INDICES_AND_PARAMETERS[476].0 == MAX_SOURCE_SYMBOLS_PER_BLOCK, "C15 last K' == K'_max");
     }
-
-    // C15: for every K <= 56403 the look-up functions return the row of the smallest K' >= K
-    #[kani::proof]
-    #[kani::unwind(479)]
-    pub(crate) fn lookups_return_least_row() {
-        let k: u32 = kani::any();
-        let idx: usize = kani::any();
-        kani::assume(k <= 56403);
-        kani::assume(idx < 477);
-        kani::assume(PIN_TABLE2[idx].0 >= k);
-        kani::assume(idx == 0 || PIN_TABLE2[idx - 1].0 < k);
-        let (kp, j, s, h, w) = PIN_TABLE2[idx];
-        assert!(extended_source_block_symbols(k) == kp, "C15 K' is the smallest table size >= K");
-        assert!(systematic_index(k) == j, "C15 J(K')");
-        assert!(num_ldpc_symbols(k) == s, "C15 S(K')");
-        assert!(num_hdpc_symbols(k) == h, "C15 H(K')");
-        assert!(num_lt_symbols(k) == w, "C15 W(K')");
-        assert!(num_intermediate_symbols(k) == kp + s + h, "C15 L = K'+S+H");
-        assert!(num_pi_symbols(k) == kp + s + h - w, "C15 P = L - W");
-        assert!(calculate_p1(k) == PIN_P1[idx].1, "C15 P1(K')");
-        kani::cover!(k == 56403, "reach last row");
-        kani::cover!(k == 0, "reach K = 0");
-    }
-
-    #[kani::proof]
-    #[kani::unwind(479)]
-    pub(crate) fn lookups_refuse_large_k() {
-        let k: u32 = kani::any();
-        kani::assume(k > 56403);
-        let which: u8 = kani::any();
-        match which {
-            0 => { let _ = extended_source_block_symbols(k); }
-            1 => { let _ = systematic_index(k); }
-            2 => { let _ = num_ldpc_symbols(k); }
-            3 => { let _ = num_hdpc_symbols(k); }
-            4 => { let _ = num_lt_symbols(k); }
-            _ => { let _ = calculate_p1(k); }
-        }
-        assert!(false, "MARKER C15 look-up accepted K > 56403");
-    }
+    // (the look-up functions themselves are verified for every K in the Verus unit V-TAB: unbounded loops, cheap there)
 }
